@@ -196,10 +196,48 @@ func (c *Checker) checkUpdateFold(m *market.MsgUpdateSellOrders) {
 
 type refBal struct{ T, R, E *big.Rat }
 
+// checkBuyRejection: a BuyDirect that the implementation rejects with its own "bid price denom"
+// complaint although every order is bid in the ask denom of its sell order's market.
+func (c *Checker) checkBuyRejection(m *market.MsgBuyDirect) {
+	if c.it.Result == nil || !strings.Contains(c.it.Result.Log, "bid price denom:") {
+		return
+	}
+	markets := map[uint64]bool{}
+	for _, o := range m.Orders {
+		so := c.pre.Orders[o.SellOrderId]
+		if so == nil || o.BidPrice == nil {
+			return
+		}
+		mk := c.pre.Markets[so.Market]
+		if mk == nil || mk.Denom != o.BidPrice.Denom {
+			return
+		}
+		markets[mk.ID] = true
+	}
+	if len(markets) > 1 {
+		c.Counters["c07_rejected_buy_across_markets"]++
+	}
+	c.report("C07", "matching-bid-denom-rejected", "BuyDirect was rejected for a bid/ask denom mismatch although every order is bid in the ask denom of its own sell order", nil)
+}
+
 func (c *Checker) checkC07(msg sdk.Msg, ok bool) {
 	m, is := msg.(*market.MsgBuyDirect)
+	if is && !ok {
+		c.checkBuyRejection(m)
+	}
 	if !is || !ok {
 		return
+	}
+	{
+		ms := map[uint64]bool{}
+		for _, o := range m.Orders {
+			if so := c.pre.Orders[o.SellOrderId]; so != nil {
+				ms[so.Market] = true
+			}
+		}
+		if len(ms) > 1 {
+			c.Counters["c07_buy_across_markets"]++
+		}
 	}
 	c.hit("C07")
 	v := c.pre
@@ -255,11 +293,13 @@ func (c *Checker) checkC07(msg sdk.Msg, ok bool) {
 		if so.Seller == buyer {
 			c.report("C07", "bought-own-order", fmt.Sprintf("orders[%d]: buyer is the seller", i), so.Row)
 		}
-		if o.BidPrice == nil || o.BidPrice.Denom != mk.Denom {
-			c.report("C07", "bid-denom!=market-denom", fmt.Sprintf("orders[%d]: bid %v accepted for market denom %s", i, o.BidPrice, mk.Denom), so.Row)
+		if o.BidPrice == nil {
 			return
 		}
-		if o.BidPrice.Amount.BigInt().Cmp(so.Ask) < 0 {
+		if o.BidPrice.Denom != mk.Denom {
+			// the order must still be settled in ITS market's denom: the reference below keeps using mk.Denom
+			c.report("C07", "bid-denom!=ask-denom", fmt.Sprintf("orders[%d]: bid %v accepted for sell order %d whose ask denom (market %d) is %s", i, o.BidPrice, so.ID, mk.ID, mk.Denom), so.Row)
+		} else if o.BidPrice.Amount.BigInt().Cmp(so.Ask) < 0 {
 			c.report("C07", "bid<ask", fmt.Sprintf("orders[%d]: bid %s < ask %s accepted", i, o.BidPrice.Amount, so.Ask), so.Row)
 		}
 		if o.DisableAutoRetire && !so.DisableAutoRetire {
@@ -443,7 +483,11 @@ func (c *Checker) checkC07(msg sdk.Msg, ok bool) {
 				continue
 			}
 			if v.BankOf(a, d).Cmp(c.post.BankOf(a, d)) != 0 {
-				c.report("C07", "unrelated-balance-changed", fmt.Sprintf("%s balance of %s changed %s -> %s during BuyDirect", d, a, v.BankOf(a, d), c.post.BankOf(a, d)), nil)
+				key := "unrelated-balance-changed"
+				if poolExact[d] == nil {
+					key = "coin-movement-in-foreign-denom" // not the ask denom of any filled order
+				}
+				c.report("C07", key, fmt.Sprintf("%s balance of %s changed %s -> %s during BuyDirect (ask denoms of the filled orders: %v)", d, a, v.BankOf(a, d), c.post.BankOf(a, d), sortedStr(poolExact)), nil)
 			}
 		}
 	}
